@@ -148,7 +148,9 @@ def main(argv=None):
 
         # generator drift: interesting classes must actually occur
         for cls, frac in ([] if violations else getattr(mod, 'MIN_FRACTIONS', {}).items()):
-            got = res.classes.get(cls, 0) / float(max(res.evaluations, 1))
+            # fractions are taken over the generated cases; executions of a coverage-guided campaign are counted apart
+            fuzzed = sum(v for k, v in res.classes.items() if k.startswith('fuzz-') and ':' not in k)
+            got = res.classes.get(cls, 0) / float(max(res.evaluations - fuzzed, 1))
             if got < frac:
                 raise build.HarnessError('generator drift: class %r is %.4f of cases, '
                                          'minimum %.4f' % (cls, got, frac))
